@@ -523,9 +523,24 @@ class Evaluator(object):
                 if n in merged:
                     init = pre.get(n)
                     post[n] = tm.mk("loop", lid, n, init if init is not None else tm.undef(n), merged[n])
+                    post[n] = self._as_comprehension(post[n], lid, n, init, merged[n], it, ctx)
         if st.orelse:
             post = self.run_keep_pc(st.orelse, post)
         return post
+
+    def _as_comprehension(self, loop_term, lid, name, init, body, it, ctx):
+        """`xs = []` followed by `for v in it: xs.append(E)` (nothing else touching xs, no break / continue) is the list
+        comprehension [E for v in it]: both spellings get the same term."""
+        if init is None or not (init.op == "list" and not init.a) or ctx.exits or ctx.continues:
+            return loop_term
+        if body.op == "upd" and body.a[1] == "method:append" and body.a[0].op == "loopvar" and body.a[0].a[0] == lid and body.a[0].a[1] == name:
+            val = body.a[3]
+            if val.op == "tuple" and len(val.a) == 1:
+                elt = val.a[0]
+                # the element must not read the list being built
+                if not any(x.op == "loopvar" and x.a[0] == lid and x.a[1] == name for x in tm.walk(elt)):
+                    return tm.mk("comp", "list", elt, (it,), (), lid)
+        return loop_term
 
     def while_stmt(self, st, env):
         self.nloops += 1
